@@ -91,7 +91,11 @@ def any_dependency_to_module_other_than(
         if node in checked_nodes:
             continue
 
-        if node in nodes_to_exclude:
+        if (
+            node in nodes_to_exclude
+            and node not in nodes_that_do_not_fulfill_criterion
+        ):
+            # (a module of the dependent itself is always looked at, also when it lies inside one of the dependent upons)
             continue
 
         checked_nodes.add(node)
